@@ -85,6 +85,12 @@ CHECKS = {
         note="Trusted: z3, CPython (running the programs), rsx. Ten hazard classes in which rope's textual inlining is wrong are known findings, identified by root-cause tags computed from the failing program; a failure is suppressed only if all its tags are known hazards. Bound: corpus K04, one-letter identifiers.",
         design="§5 C04",
     ),
+    "C07": dict(
+        level="other",
+        text="Solver-decided, path-exhaustive within stated bounds (Pattern B): ImportOrganizer.organize_imports / expand_star_imports / froms_to_imports / relatives_to_absolutes / handle_long_imports (importutils.ImportTools, module_imports, actions, importinfo) over corpus K07 in a multi-module project; spellings of aliases and used names are symbolic, so used-or-unused, duplicate-or-not, alias-shadows-import and the lexicographic sort order are solver-explored; split_imports / pull_imports_to_top / sort_imports_alphabetically are solver-split. Each result must parse, keep every module importable, print the same output, and a second application must change nothing.",
+        note="Trusted: z3, CPython, rsx. Module and package names are concrete. Two genuine defects are known findings.",
+        design="§5 C07",
+    ),
 }
 
 NOT_YET = "check not built yet (see DESIGN.md §5 for the planned decision procedure)"
